@@ -42,6 +42,7 @@ def arities(t):
 
 
 INSTANCES = [(t, a) for t in S.GATE_TYPES if t != 'INPUT' for a in arities(t)]
+G_INSTANCES = list(INSTANCES)      # the (type, arity) pairs the gate equation G speaks about (extended in the thorough tier)
 
 
 class LitMap(Model):
@@ -91,7 +92,7 @@ def view(it, env, val):
 def G(S0, val, sv, u):
     """the gate equation of u under the valuation: val(lit u) = OP(type u)(val(lit operands)) for the arities under contract"""
     out = []
-    for t, a in INSTANCES:
+    for t, a in G_INSTANCES:
         ops = [val.f(sv(S0.op(u, z3.IntVal(j)))) for j in range(a)]
         out.append(z3.Implies(z3.And(S0.typ(u) == GT[t], S0.nops(u) == a), val.f(sv(u)) == theory.OPz(t, ops)))
     return z3.And(out)
